@@ -954,9 +954,11 @@ def rule_r13(ctx) -> List[R.Inst]:
     what = f"declared mutable defaults: {sorted(set(mutable))[:4]}"
 
     def copies_per_element(e) -> bool:
-        """[copy(x) for ...] / [deepcopy(d) for _ in range(n)] / a call of copy/deepcopy/list/dict on the element"""
+        """[copy(x) for ...] / [deepcopy(d) for _ in range(n)] / a call of copy/deepcopy/list/dict on the element — and the list of
+        copies is not then REPEATED (`[copy(x) for x in one] * n` holds the same n-times-referenced objects again)"""
+        multiplied = {id(x) for m in ast.walk(e) if isinstance(m, ast.BinOp) and isinstance(m.op, ast.Mult) for x in (m.left, m.right)}
         for n in ast.walk(e):
-            if isinstance(n, (ast.ListComp, ast.GeneratorExp)) and any(
+            if isinstance(n, (ast.ListComp, ast.GeneratorExp)) and id(n) not in multiplied and any(
                     isinstance(x, ast.Call) and call_name(x) in ("deepcopy", "copy", "list", "dict") for x in ast.walk(n.elt)):
                 return True
         return False
@@ -980,7 +982,9 @@ def rule_r13(ctx) -> List[R.Inst]:
     # (b) TimedList.empty: rows repeated -> object columns rebuilt with per-row copies
     fn = M.fn(TL + ".empty")
     file, line = fn_loc(M, TL + ".empty")
-    rep = any(isinstance(n, ast.Call) and call_name(n) == "repeat" for n in ast.walk(fn.node))
+    rep = any(isinstance(n, ast.Call) and call_name(n) == "repeat" for n in ast.walk(fn.node)) or \
+        any(isinstance(n, ast.BinOp) and isinstance(n.op, ast.Mult) and any(isinstance(x, (ast.List, ast.ListComp)) for x in (n.left, n.right))
+            for n in ast.walk(fn.node))       # (a list times n repeats references as well)
     ok_b = any(isinstance(n, ast.Assign) and isinstance(n.targets[0], ast.Subscript) and copies_per_element(n.value) for n in ast.walk(fn.node)) or \
         any(isinstance(n, ast.DictComp) and copies_per_element(n.value) and
             any(isinstance(x, ast.Call) and call_name(x) == "repeat" for x in ast.walk(n.value)) for n in ast.walk(fn.node))   # column-wise: {name: Series([copy(v) for v in one.repeat(n)])}
